@@ -92,11 +92,19 @@ def run(res):
         viol += e2e.get("violations", [])
     except ImportError:
         pass
+    # ---- the replay model (LogRec/Catlog.v) against `redo-log -r [-u]` on real logs
+    import catlog_tie
+    ct = catlog_tie.run(common.build_redo(True), common.rng("c18-catlog"), 14 if t == "quick" else 120)
+    viol += ct["oracle_failures"][:3]
     cov = dict(proof)
     cov.update({
+        "replay_model_tie": {k: v for k, v in ct.items() if k not in ("disagreements", "oracle_failures")},
+        "replay_model_disagreements": len(ct["disagreements"]),
         "trusted_base": ["Coq 8.16.1 kernel", "extraction (ExtrOcamlBasic only) + ocaml/driver.ml", "harness/src/pharness.rs + hook redo::verif::meta_format",
+                         "lib/catlog_tie.py (reads .redo/log.* and the Files table, normalises pid and time stamp of records on both sides)",
+                         "models are hand-written: theories/LogRec/Catlog.v (static replay; lossy UTF-8 decoding, Unicode white space and the stdin pseudo target '-' are outside it)",
                          "model is hand-written: theories/LogRec/Meta.v; f64 timestamps are modelled as integers in 1e-4 s units"],
-        "evaluations": len(lines) + (e2e or {}).get("evaluations", 0),
+        "evaluations": len(lines) + (e2e or {}).get("evaluations", 0) + ct["evaluations"],
         "distinct_nontrivial": len(nontriv),
         "rule": "format: every text over {@ : R space 0 . a} up to length %d with sampled kind/pid/ts + random records (texts resembling records included); parse: '@@REDO:'+every tail up to length %d, bare tails, and a malformed stream (bad pids, bad timestamps, broken separators, extra fields); non-trivial = well-formed record whose text contains '@' or ':'" % (4 if t == "quick" else 5, 6 if t == "quick" else 7),
         "exhaustive": True,
@@ -117,6 +125,10 @@ def run(res):
     elif d:
         res.violation({"property": "C18", "kind": "correspondence", "broken": "model LogRec/Meta.v vs redo::logs::Meta",
                        "theorems_no_longer_tied": ["C18a_roundtrip", "C18a_parse_sound"], "first_disagreements": d}, found_input=False)
+    elif ct["disagreements"]:
+        res.violation({"property": "C18", "kind": "correspondence", "broken": "model LogRec/Catlog.v vs `redo-log -r [-u]` on the logs of real builds",
+                       "theorems_no_longer_tied": ["C18b_replay_lines_once", "C18b_replay_attributed", "C18b_follow_equals_static"],
+                       "first_disagreements": ct["disagreements"][:2]}, found_input=False)
 
 
 def replay(path):
